@@ -48,6 +48,13 @@ func instances(tier string, seed uint64) []inst {
 		{"null", tNull(), []rv{vNull()}},
 		{"fn", tFn(tInt()), []rv{vFn()}},
 	}
+	out = append(out, collisionInstances()...)
+	for i := range out {
+		if out[i].Name == "{?}" {
+			// an any-object whose data keys are named like its own builtin members
+			out[i].Vars = append(out[i].Vars, collisionAnyObj())
+		}
+	}
 	if tier == "thorough" {
 		r := fw.NewRng(seed ^ 0xC18)
 		for i := range out {
@@ -102,6 +109,123 @@ func instances(tier string, seed uint64) []inst {
 		out[i].Vars = vs
 	}
 	return out
+}
+
+// ---------------------------------------------------------------------------------------------
+// Data fields named like builtin members
+// ---------------------------------------------------------------------------------------------
+
+// reservedObjNames are the member names the analyzer gives to every object (`keys`, `to_json`, …):
+// an object literal may not use them as field names, an object type may (such values come from
+// parse_json, casts and the host).
+func reservedObjNames() []string { return sortedTypeKeys(memberTable(tObj())) }
+
+// siblingObjNames are the member names of the sibling type `{ ? }` that plain objects do not
+// reserve (`to_string`, `get`, `set`, …): usable as field names everywhere, but the value libraries
+// may carry a builtin of that name.
+func siblingObjNames() []string {
+	res := memberTable(tObj())
+	var out []string
+	for _, k := range sortedTypeKeys(memberTable(tAnyObj())) {
+		if _, ok := res[k]; !ok {
+			out = append(out, k)
+		}
+	}
+	return out
+}
+
+// collisionField gives the k-th colliding field a JSON-expressible type and two values of it.
+func collisionField(k int) (ast.Type, rv, rv) {
+	switch k % 4 {
+	case 0:
+		return tInt(), vInt(int64(40 + k)), vInt(0)
+	case 1:
+		return tStr(), vStr(fmt.Sprintf("v%d", k)), vStr("")
+	case 2:
+		return tBool(), vBool(true), vBool(false)
+	}
+	return tList(tInt()), vList(vInt(int64(k)), vInt(2)), vList()
+}
+
+func mkCollision(names []string, extra bool) (inst, bool) {
+	if len(names) == 0 {
+		return inst{}, false
+	}
+	var tkv, akv, bkv []any
+	if extra {
+		tkv, akv, bkv = append(tkv, "a", tInt()), append(akv, "a", vInt(1)), append(bkv, "a", vInt(-2))
+	}
+	for k, n := range names {
+		t, a, b := collisionField(k)
+		tkv, akv, bkv = append(tkv, n, t), append(akv, n, a), append(bkv, n, b)
+	}
+	t := tObj(tkv...)
+	return inst{strings.ReplaceAll(typeText(t), " ", ""), t, []rv{vObj(akv...), vObj(bkv...)}}, true
+}
+
+// collisionInstances are object types whose data fields are named like builtin members. The
+// analyzer offers such a member with the type of the field, so every runtime value of the type has
+// to hand out the field, not a builtin of the same name. The names are read from the analyzer's own
+// tables: (1) the sibling names only, (2) every name objects reserve (no builtin method is left),
+// (3) an ordinary field plus the first reserved and the first sibling name (builtin methods and
+// shadowing fields side by side).
+func collisionInstances() []inst {
+	var out []inst
+	res, sib := reservedObjNames(), siblingObjNames()
+	if in, ok := mkCollision(sib, false); ok {
+		out = append(out, in)
+	}
+	if in, ok := mkCollision(res, false); ok {
+		out = append(out, in)
+	}
+	var mixed []string
+	if len(res) > 0 {
+		mixed = append(mixed, res[0])
+	}
+	if len(sib) > 0 {
+		mixed = append(mixed, sib[len(sib)-1])
+	}
+	if in, ok := mkCollision(mixed, true); ok && len(mixed) == 2 {
+		out = append(out, in)
+	}
+	return out
+}
+
+// collisionAnyObj is an any-object whose data keys are the member names of any-objects.
+func collisionAnyObj() rv {
+	o := rv{K: "anyobj", M: map[string]rv{}}
+	for k, n := range sortedTypeKeys(memberTable(tAnyObj())) {
+		_, a, _ := collisionField(k)
+		o.M[n] = a
+	}
+	return o
+}
+
+// literalOK reports whether the analyzer allows the value to be written as a literal: object
+// literals may not use the reserved member names as field names.
+func literalOK(v rv) bool {
+	if v.K == "obj" {
+		res := memberTable(tObj())
+		for k := range v.M {
+			if _, bad := res[k]; bad {
+				return false
+			}
+		}
+	}
+	for _, x := range v.L {
+		if !literalOK(x) {
+			return false
+		}
+	}
+	for _, x := range v.M {
+		if !literalOK(x) {
+			return false
+		}
+	}
+	if v.O != nil {
+		return literalOK(*v.O)
+	}
+	return true
 }
 
 func randomValue(r *fw.Rng, t ast.Type, depth int) rv {
@@ -379,7 +503,9 @@ func argTuples(params []ast.FunctionTypeParam, recv rv, thorough bool) [][]rv {
 
 // payload is one case.
 type payload struct {
-	Part    string `json:"part"`    // api | call | field | idx-int | idx-lit | idx-dyn | arrow
+	Part string `json:"part"` // api | call | field | assign | idx-int | idx-lit | idx-dyn | idx-set-int | idx-set-lit | arrow
+	// Backend "both": the program runs on the VM and on the interpreter and the two answers are
+	// compared where the reference model leaves the choice (value or interrupt) to the implementation
 	Backend string `json:"backend"` // vm | tree
 	Inst    string `json:"inst"`
 	Recv    rv     `json:"recv"`
@@ -454,7 +580,13 @@ func originsOf(recv rv) []string {
 			out = append(out, "json")
 		}
 	}
-	if recv.K == "anyobj" && len(recv.M) >= 1 {
+	if recv.K == "obj" && !literalOK(recv) && len(out) > 1 {
+		// a field named like a reserved member: no literal exists, only parse_json delivers the value
+		out = out[1:]
+	}
+	asObj := recv.clone()
+	asObj.K = "obj"
+	if recv.K == "anyobj" && len(recv.M) >= 1 && literalOK(asObj) {
 		ok := true
 		for _, x := range recv.M {
 			if typeText(typeOfRv(x)) == "" {
@@ -654,6 +786,37 @@ func indexProgram(in inst, recv rv, origin string, part string, idx rv, form str
 	return assemble(c, body), print
 }
 
+// otherValue picks a value of type t that differs from cur (the value an assignment stores).
+func otherValue(t ast.Type, cur rv) (rv, bool) {
+	for _, g := range genericValues(t) {
+		if !eq(g, cur) {
+			return g, true
+		}
+	}
+	return rv{}, false
+}
+
+// assignProgram renders `recv.member = v;` / `recv[idx] = v;` followed by reading the place back.
+func assignProgram(in inst, recv rv, origin string, part string, member string, idx rv, v rv, vt ast.Type) (src string, print bool) {
+	c := &litCtx{}
+	body := recvSetup(c, in, recv, origin)
+	body = append(body, fmt.Sprintf("let v: %s = %s;", typeText(vt), c.lit(v, vt, true)))
+	place := "recv." + member
+	switch part {
+	case "idx-set-int":
+		body = append(body, fmt.Sprintf("let i: int = %s;", c.lit(idx, tInt(), true)))
+		place = "recv[i]"
+	case "idx-set-lit":
+		place = "recv[" + strLit(idx.S) + "]"
+	}
+	body = append(body, place+" = v;", "let r = "+place+";", "probe(r, recv);")
+	if renderable(vt) {
+		body = append(body, "println(r);")
+		print = true
+	}
+	return assemble(c, body), print
+}
+
 // indexResultType is the type the analyzer gives to the index expression.
 func indexResultType(in inst, recv rv, part string, idx rv) ast.Type {
 	switch part {
@@ -690,6 +853,10 @@ func construct(p *payload) string {
 	switch p.Part {
 	case "idx-int", "idx-lit", "idx-dyn":
 		op = "[]"
+	case "idx-set-int", "idx-set-lit":
+		op = "[]="
+	case "assign":
+		op = "." + p.Member + "="
 	case "arrow":
 		op = "->"
 	}
